@@ -448,10 +448,11 @@ def rand_sort_list(rng, tier):
 
 COLS = ['a', 'b', 'c', 'd']
 def rand_column(rng, n, mode=None):
-    mode = mode or rng.choice(['ints', 'ints', 'nums', 'numsnan', 'strs', 'mixed', 'mixed', 'dates', 'none'])
+    mode = mode or rng.choice(['ints', 'ints', 'nums', 'numsnan', 'strs', 'mixed', 'mixed', 'dates', 'none', 'bin', 'bin'])
     out = []
     for _ in range(n):
         if mode == 'ints': out.append(['i', rng.randrange(0, 4)])
+        elif mode == 'bin': out.append(rng.choice([['i', 0], ['i', 0], ['i', 0], ['i', 1], ['f', 0]]))      # few keys, big groups
         elif mode == 'nums': out.append(rng.choice([['i', rng.randrange(0, 3)], ['f', 2 * rng.randrange(0, 3)], ['f', rng.randrange(-2, 5)]]))
         elif mode == 'numsnan': out.append(['nan', rng.randrange(2)] if rng.random() < 0.3 else ['i', rng.randrange(0, 3)])
         elif mode == 'strs': out.append(['s', rng.choice(STRS[:5])])
